@@ -199,8 +199,24 @@ func c05Case(c *Ctx) {
 		gcfg.Splits = true
 	}
 	prog := Generate(c.Plan, gcfg)
+	forkTemplate := c.Plan.Draw(5) == 0
+	if forkTemplate {
+		// map calls of a splitting stage over collections that only exist at run
+		// time (forks are created, renamed and re-created from disk on restart)
+		prog = templateForkOrderProg(c.Plan)
+		if u := prog.Stage("USE"); !u.Split && c.Plan.Draw(4) > 0 {
+			u.Split = true
+			u.ChunkIns = []Field{{"c0", Ty{Base: "int"}}}
+			u.ChunkOuts = []Field{{"part", Ty{Base: "int"}}}
+		}
+		c.Res.Probes["fork-template-base"]++
+	}
 	vdr := []string{"disable", "rolling", "post", "strict"}[c.Plan.Draw(4)]
 	fcfg := &FCfg{MaxLen: 1 + c.Plan.Draw(3), MaxChunks: c.Plan.Draw(4), Salt: "c05"}
+	if forkTemplate {
+		fcfg.MaxChunks = 1 + c.Plan.Draw(3)
+		fcfg.Salt = fmt.Sprintf("c05-%d", c.Plan.Draw(1000))
+	}
 	if bigChunks {
 		// chunk counts around the decimal-width boundary of chunk directory names
 		fcfg.MaxChunks = 9 + c.Plan.Draw(4)
